@@ -34,7 +34,8 @@ def rec_case(seed):
     nonfin = [[r, c] for r in range(h) for c in range(w) if rng.random() < 0.03] if rng.random() < 0.4 else []
     cov = [[r, c] for r in range(h) for c in range(min(w, rng.randint(1, 2)))] if rng.random() < 0.3 else []
     p = rng.choice([0, 10, 50, 90, 100])
-    estimator = rng.choice(['median', 'mean'])
+    estimator = rng.choice(['median', 'mean', 'mmm', 'sextractor', 'mode'])
+    rmsest = rng.choice(['std', 'std', 'madstd'])
     zoom = rng.random() < 0.6
     sigma, maxiters = 3, 10
     fill = rng.choice([0.0, -7.0])
@@ -51,27 +52,30 @@ def rec_case(seed):
         cm = np.zeros((h, w), dtype=bool)
         for r, c in cov:
             cm[r, c] = True
-    est = B.MedianBackground() if estimator == 'median' else B.MeanBackground()
+    est = {'median': B.MedianBackground, 'mean': B.MeanBackground, 'mmm': B.MMMBackground, 'sextractor': B.SExtractorBackground,
+           'mode': B.ModeEstimatorBackground}[estimator]()
+    rest = B.StdBackgroundRMS() if rmsest == 'std' else B.MADStdBackgroundRMS()
     interp = B.BkgZoomInterpolator() if zoom else B.BkgIDWInterpolator()
     from astropy.stats import SigmaClip
 
     def run(dd, mm=m, fsize=1, fthr=None):
         return B.Background2D(dd, (by, bx), mask=mm, coverage_mask=cm, exclude_percentile=float(p), filter_size=fsize, filter_threshold=fthr,
-                              bkg_estimator=est, sigma_clip=SigmaClip(sigma=float(sigma), maxiters=maxiters), interpolator=interp, fill_value=fill)
+                              bkg_estimator=est, bkgrms_estimator=rest, sigma_clip=SigmaClip(sigma=float(sigma), maxiters=maxiters), interpolator=interp, fill_value=fill)
     # median filter of the meshes (whole mesh, or only the boxes above filter_threshold)
     fsize = rng.choice([(3, 3), (1, 3), (3, 1), (5, 3), (3, 5)]) if rng.random() < 0.5 else None
     selective = rng.random() < 0.6
     fthr = base + rng.randint(0, 6) + 0.37
     bad = sorted({(r, c) for r, c in mask} | {(r, c) for r, c in nonfin} | {(r, c) for r, c in cov})
-    rec = {'id': seed, 'kind': 'mesh', 'data': data, 'bad': [list(x) for x in bad], 'coverage': cov, 'box': [by, bx], 'p': p, 'estimator': estimator,
+    rec = {'id': seed, 'kind': 'mesh', 'data': data, 'bad': [list(x) for x in bad], 'coverage': cov, 'box': [by, bx], 'p': p, 'estimator': estimator, 'rmsest': rmsest,
            'sigma': sigma, 'maxiters': maxiters, 'zoom': zoom, 'fill_k': int(round(fill * S)), 'raised': False,
-           'mesh': [[0]], 'rmsmesh': [[0]], 'npix': [[0]], 'bkg': [[0]], 'rms': [[0]], 'map_finite': True}
+           'mesh': [[0]], 'rmsmesh': [[0]], 'madmesh': [[0]], 'npix': [[0]], 'bkg': [[0]], 'rms': [[0]], 'map_finite': True}
     out = [rec]
     with warnings.catch_warnings():
         warnings.simplefilter('ignore')
         try:
             b = run(d)
             bkg, rms = np.asarray(b.background), np.asarray(b.background_rms)
+            rec['madmesh'] = fxa(np.asarray(getattr(b.background_rms_mesh, 'value', b.background_rms_mesh), dtype=float) / 1.482602218505602)
             rec.update(mesh=fxa(b.background_mesh), rmsmesh=fxa(b.background_rms_mesh), npix=np.asarray(b.npixels_mesh).astype(int).tolist(), bkg=fxa(bkg), rms=fxa(rms),
                        map_finite=bool(np.all(np.isfinite(bkg)) and np.all(np.isfinite(rms)) and np.all(np.isfinite(b.background_mesh))
                                        and np.all(np.isfinite(b.background_rms_mesh))))
@@ -176,7 +180,7 @@ def record_without_bottleneck(ctx, seeds):
 def run(ctx):
     q = ctx.quick
     ctx.rule = ('seeded integer images 2x2..14x14, box sizes 1..image (dividing or not, box == image), masks (sometimes a whole box), NaN/inf, '
-                'coverage masks, exclude_percentile in {0,10,50,90,100}, filter sizes 1/3/5 per axis (whole mesh or selective above a threshold), Median/Mean estimators, zoom/IDW interpolators, with and without bottleneck; '
+                'coverage masks, exclude_percentile in {0,10,50,90,100}, filter sizes 1/3/5 per axis (whole mesh or selective above a threshold), Median/Mean/MMM/SExtractor/Mode estimators, Std/MADStd RMS, zoom/IDW interpolators, with and without bottleneck; '
                 'non-trivial = image has a padded edge box or an excluded box')
     n = 500 if q else 8000
     seeds = [ctx.seed * 40692 + i for i in range(n)]
@@ -209,7 +213,7 @@ def run(ctx):
         vb = core.validate_batch(ctx, 'Trace_Bkg2D', bad, 'SelfTest:Bkg2D', shards=2)
         rej = [not v['ok'] for v in vb.values()]
         ctx.selftest('perturbed mesh value / npixels_mesh', sum(rej) >= len(rej) - 1, f'{sum(rej)}/{len(rej)} rejected (clip ties are don\'t-care)')
-    ctx.assumptions += ['estimators other than Median/Mean and the numerical quality of the interpolators are not re-derived '
+    ctx.assumptions += ['the biweight estimators and the numerical quality of the interpolators are not re-derived '
                         '(range, finiteness and relations only)', 'constant image is compared at 1/1024 (the IDW fill is exact only to 1 ulp)']
 
 
